@@ -1159,3 +1159,26 @@ fn l_sync_round(ttl: bool, tti: bool) {
 sh!(l_sync_round_plain, l_sync_round(false, false));
 // not instantiated: no verdict in 40 min once evict_expired runs after an admission
 // sh!(l_sync_round_expiry, l_sync_round(true, true));
+
+/// C09: maintenance over capacity when the only node left belongs to an entry that already left the
+/// map (invalidate queued its Remove, not yet applied): evict_lru_entries must give up after
+/// `batch_size` rounds (here 2) instead of rotating the deque for ever. The unwinding assertion of
+/// its loop is the termination check (registered with unwind_tag = C09).
+fn l_evict_lru_terminates() {
+    let st = sbuild(&sc(1, Some(1), true, WT_A, false, false, false, 1));   // weight 3 > capacity 1
+    let g = st.g;
+    let inner = &*st.b.inner;
+    let kv = st.b.remove_entry(&0u8).unwrap();                           // invalidate(0): Remove not yet applied
+    let mut counters = EvictionCounters::new(g.ec, g.ws);
+    {
+        let mut deqs = inner.deques.lock().expect("lock poisoned");
+        inner.evict_lru_entries(&mut deqs, 2, g.ws - 1, &mut counters);
+        let (_, an, ok) = dq::walk::<KeyHashDate<u8>, { MAXN }>(&deqs.probation);
+        assert!(ok && an == 1, "C08: the node of a not-yet-removed entry must stay linked (its Remove op still points to it)");
+    }
+    assert!(counters.entry_count == g.ec && counters.weighted_size == g.ws, "C10: nothing evicted, nothing given back");
+    kani::cover!(true, "end reached");
+    std::mem::forget(kv);
+    std::mem::forget(st);
+}
+sh!(l_evict_lru_terminates_on_unevictable_node, l_evict_lru_terminates());
